@@ -139,7 +139,7 @@ def body_under(case):
         twin_done = True
         check(Xi.shape == Xf.shape and np.all(np.abs(Xi - Xf) <= 1e-6 * float(np.max(sv.ub - sv.lb))), "under:integer-targets-differ",
               f"targets {whole.tolist()} as an int64 array give {Xi.tolist()}, as floats {Xf.tolist()} (option {kind})")
-    scs_fallback = (not hooks.available()) or any(e.get("solver") == "SCS" and e.get("status") == "optimal_inaccurate" for e in solves)
+    scs_fallback = (not hooks.available()) or any(e.get("solver") == "SCS" for e in solves)
     check(X.shape == (B.shape[0], sv.n) and Bp.shape == B.shape, "under:shape", f"{X.shape} {Bp.shape}")
     rng = sv.ub - sv.lb
     tolx = 1e-4 * float(np.max(rng))
@@ -155,7 +155,7 @@ def body_under(case):
     for i, b in enumerate(B):
         res = float(np.linalg.norm(w * (model[i] - b)))
         # the default conic solvers satisfy a constraint to about 1e-5 of the size of the data (CLARABEL optimal_inaccurate); when the
-        # default solver failed and the fallback SCS answered "optimal_inaccurate", its own tolerances (1e-4 absolute + relative) apply
+        # default solver failed and the fallback SCS answered ("optimal" or "optimal_inaccurate"), its own tolerances (1e-4 absolute + relative) apply
         check(res <= 1.05 * eps + 1e-6 + (1e-4 * (1.0 + float(np.max(np.abs(b)))) if scs_fallback else 1e-5 * float(np.max(np.abs(b)))), "under:target-not-reproduced", f"weighted capture error {res:.3g} exceeds the requested tolerance {eps:.3g} (option {kind})",
               observed=dict(b=b.tolist(), x=X[i].tolist()))
         x = np.clip(X[i], sv.lb, sv.ub)
